@@ -63,8 +63,11 @@ def n_sweep(tier):
     return len(scripts) * len(combos)
 
 
+BIG_RETRIES = [(tr, ka, r) for tr in ("udp", "tcp") for ka in (False, True) for r in (1200, 3000)]
+
+
 def n_cases(tier):
-    return n_sweep(tier) + N_RANDOM[tier]
+    return n_sweep(tier) + N_RANDOM[tier] + len(BIG_RETRIES)
 
 
 BATCH = 16
@@ -170,6 +173,13 @@ def connect_outcome(kind, rnd):
 def make_case(tier, seed, index):
     rnd = C.rng_for(seed, ID, index)
     ns = n_sweep(tier)
+    if index >= ns + N_RANDOM[tier]:
+        # a very large (legal) retry budget against a silent peer / a peer that only sends garbage
+        tr, ka, r = BIG_RETRIES[index - ns - N_RANDOM[tier]]
+        garbage = (index % 2 == 1)
+        return {"kind": "bigretries", "transport": tr, "keep_alive": ka, "timeout": 0.25, "retries": r, "pre": 0,
+                "level": "execute", "cmd": {"op": "read", "reg": 35100, "count": 2}, "script": [], "faults": [],
+                "connects": [], "default": {"k": "garbage", "n": 12, "seed": 5, "d": 0.125} if garbage else {"k": "drop"}}
     scripts, combos = _sweep_space(tier)
     if index < ns:
         script = [SYMBOLS[i] for i in scripts[index // len(combos)]]
@@ -260,7 +270,10 @@ def run_case(case):
     tr = case["transport"]
     tau = case["timeout"]
     r = case["retries"]
-    world = World(faults=case["faults"], connects=case["connects"], max_steps=20_000)
+    world = World(faults=case["faults"], connects=case["connects"],
+                  max_steps=400_000 if case["kind"] == "bigretries" else 20_000)
+    if case.get("default"):
+        world.net.default_fault = case["default"]
     dev = SimInverter(mode="stamp")
     world.net.add_device(C.HOST, C.port_of(tr), dev)
     state = {}
